@@ -3,7 +3,7 @@
 TIERS = {
     "C07": {
         "quick": {"cases": 3000, "min_steps": 20, "max_steps": 60, "wall": 900, "echo": 160, "shrink_s": 25},
-        "thorough": {"cases": 150000, "min_steps": 20, "max_steps": 80, "wall": 7200, "echo": 1500, "hash_echo": 4000, "shrink_s": 40},
+        "thorough": {"cases": 150000, "min_steps": 20, "max_steps": 80, "wall": 7200, "echo": 1500, "hash_echo": 4000, "shrink_s": 40, "rerun_every": 2},
     },
     "C17": {
         "quick": {"cases": 24000, "configs": 4, "wall": 600},
